@@ -4,6 +4,8 @@
 // Ghost model of the dynamic object: an immutable sequence of n entries (keys strictly ascending as abstract
 // byte strings, values, deletion flags) and a cursor pos; the iterator is valid iff 0 <= pos < n.
 // Clients (wrappers, merge, service scans) are verified against this contract; implementations refine it.
+// Frame: a method changes only the cursor of its own model (`modifies self.pos`); implementations may write their
+// own fields and freshly allocated memory, never memory a client can see (assumption on implementations).
 // Comment-only; excluded from every build without the `verif` tag.
 package iterator
 
@@ -18,29 +20,33 @@ package iterator
 //@ predicate IterSorted(it Iterator) = it.n >= 0 && (forall i int, j int :: 0 <= i && i < j && j < it.n ==> blt(it.keys[i], it.keys[j]))
 
 //@ func Iterator.Valid
+//@   modifies nothing
 //@   ensures result == IterValid(self)
 //@ func Iterator.SeekToFirst
-//@   havocs self.pos
+//@   modifies self.pos
 //@   ensures self.pos == 0
 //@ func Iterator.SeekToLast
-//@   havocs self.pos
+//@   modifies self.pos
 //@   ensures self.pos == self.n - 1
 //@ func Iterator.Next
-//@   havocs self.pos
+//@   modifies self.pos
 //@   ensures old(IterValid(self)) ==> self.pos == old(self.pos) + 1
 //@   ensures !old(IterValid(self)) ==> !IterValid(self)
 //@   ensures result == IterValid(self)
 //@ func Iterator.Seek
-//@   havocs self.pos
+//@   modifies self.pos
 //@   ensures 0 <= self.pos && self.pos <= self.n
 //@   ensures forall i int :: 0 <= i && i < self.pos ==> blt(self.keys[i], bstr(target))
 //@   ensures self.pos < self.n ==> !blt(self.keys[self.pos], bstr(target))
 //@   ensures result == IterValid(self)
 //@ func Iterator.Key
+//@   modifies nothing
 //@   ensures IterValid(self) ==> result != nil && bstr(result) == self.keys[self.pos]
 //@   ensures !IterValid(self) ==> result == nil
 //@ func Iterator.Value
+//@   modifies nothing
 //@   ensures IterValid(self) ==> bstr(result) == self.vals[self.pos] && (result == nil) == self.valnil[self.pos]
 //@   ensures !IterValid(self) ==> result == nil
 //@ func Iterator.IsTombstone
+//@   modifies nothing
 //@   ensures result == (IterValid(self) && self.tomb[self.pos])
